@@ -683,9 +683,9 @@ class RatioOfMeans(  # noqa: D101
             pooled_var = (
                 (contr_count - 1)*contr_var + (treat_count - 1)*treat_var
             ) / (contr_count + treat_count - 2)
-            scale = math.sqrt(pooled_var/contr_count + pooled_var/treat_count)
+            scale = math.sqrt(max(pooled_var/contr_count + pooled_var/treat_count, 0))
         else:
-            scale = math.sqrt(contr_var/contr_count + treat_var/treat_count)
+            scale = math.sqrt(max(contr_var/contr_count + treat_var/treat_count, 0))
 
         if self.use_t:
             if self.equal_var:
